@@ -1,6 +1,7 @@
 package sim
 
 import (
+	"crypto/tls"
 	"encoding/json"
 	"fmt"
 	"math/rand"
@@ -46,6 +47,7 @@ type Observation struct {
 	State  []SvcState        `json:"state"`  // parsed state file
 	StErr  string            `json:"st_err"` // state file unreadable / unparsable
 	Matrix map[string]string `json:"matrix"` // key -> "status:sorted set of serving targets[:location]"
+	Certs  map[string]string `json:"certs,omitempty"` // SNI name -> "cert" | error text
 }
 
 // Observe takes the snapshot. It runs in the calling actor's goroutine; the
@@ -82,6 +84,14 @@ func (w *World) Observe(actor string, idx int, op *Op, keys []MatrixKey, repeat 
 			if l := resp.Header.Get("Location"); l != "" {
 				loc = l
 			}
+			if u := resp.Header.Get("X-Seen-Uri"); u != "" && u != k.Path {
+				loc = "seen=" + u
+			}
+			if resp.Status == 503 {
+				if reg, ok := messageRegion(string(resp.Body), strings.Contains(string(resp.Body), "CUSTOM503[[")); ok {
+					loc = "msg=" + trunc(reg, 80)
+				}
+			}
 			if status != 200 {
 				break
 			}
@@ -94,6 +104,22 @@ func (w *World) Observe(actor string, idx int, op *Op, keys []MatrixKey, repeat 
 			v += ":MIXED"
 		}
 		o.Matrix[k.String()] = v
+	}
+	if w.Sc.Params["obs_certs"] != 0 {
+		o.Certs = map[string]string{}
+		hosts := map[string]bool{"": true}
+		for _, k := range keys {
+			hosts[stripPort(k.Host)] = true
+		}
+		for h := range hosts {
+			c, err := ri.Router.GetCertificate(&tls.ClientHelloInfo{ServerName: h})
+			switch {
+			case err != nil:
+				o.Certs[h] = "err: " + err.Error()
+			case c != nil:
+				o.Certs[h] = "cert"
+			}
+		}
 	}
 	w.mu.Lock()
 	w.Obs = append(w.Obs, o)
@@ -129,6 +155,7 @@ func DiffObs(a, b *Observation, withState bool) []string {
 	}
 	cmpMap("list", a.List, b.List)
 	cmpMap("matrix", a.Matrix, b.Matrix)
+	cmpMap("certificate", a.Certs, b.Certs)
 	if withState {
 		ja, _ := json.Marshal(a.State)
 		jb, _ := json.Marshal(b.State)
